@@ -169,7 +169,9 @@ def run_tlc(module, cfg, files=None, extra_files=None, workers=None, timeout=900
                     fh.write(src)
         meta = os.path.join(d, 'meta')
         w = workers or NCPU
-        java = ['java', '-XX:+UseParallelGC', '-Xss64m']
+        jtmp = os.path.join(d, 'jtmp')      # TLC unpacks its standard modules into java.io.tmpdir and leaves them there: keep them inside the scratch directory
+        os.makedirs(jtmp, exist_ok=True)
+        java = ['java', '-XX:+UseParallelGC', '-Xss64m', '-Djava.io.tmpdir=' + jtmp]
         java.append('-Xmx%s' % (heap or '12g'))
         if dfs:
             java.append('-Dtlc2.tool.queue.IStateQueue=StateDeque')
